@@ -53,6 +53,7 @@ const CAP_SLACK: usize = 3;
 pub fn check_walkers<G>(cx: &mut Cx, rng: &mut Rng, abs: &Abs, cl: &[Vec<bool>], g: G, ids: &[G::NodeId]) -> R
 where
     G: IntoNeighbors + Visitable + NodeIndexable + Copy,
+    G::Map: Default,
 {
     if abs.n == 0 {
         return Ok(());
@@ -120,6 +121,28 @@ where
     }
     let s4 = seq_abs(cx, g, &back, &seq4, "Dfs.move_to(mid)")?;
     check_set_once(cx, abs.n, &s4, &want_mid, "Dfs.move_to(mid-traversal)")?;
+
+    // walkers created empty (Default) and then reset onto this graph
+    let mut d0: Dfs<G::NodeId, G::Map> = Dfs::default();
+    d0.reset(g);
+    d0.move_to(ids[s]);
+    let mut seq5 = vec![];
+    while let Some(y) = d0.next(g) {
+        seq5.push(y);
+        cx.ensure(seq5.len() <= cap, "Dfs::default+reset:overrun", || "overrun".into())?;
+    }
+    let s5 = seq_abs(cx, g, &back, &seq5, "Dfs::default+reset")?;
+    cx.same(&s5, &sa, "Dfs::default+reset==fresh")?;
+    let mut p0: DfsPostOrder<G::NodeId, G::Map> = DfsPostOrder::default();
+    p0.reset(g);
+    p0.move_to(ids[s]);
+    let mut seq6 = vec![];
+    while let Some(y) = p0.next(g) {
+        seq6.push(y);
+        cx.ensure(seq6.len() <= cap, "DfsPostOrder::default+reset:overrun", || "overrun".into())?;
+    }
+    let s6 = seq_abs(cx, g, &back, &seq6, "DfsPostOrder::default+reset")?;
+    check_set_once(cx, abs.n, &s6, &want, "DfsPostOrder::default+reset")?;
 
     // ---- Bfs
     let mut bfs = Bfs::new(g, ids[s]);
